@@ -15,6 +15,7 @@ THEOREMS = [
     "Rtosc.C12.saved_iff_differs",
     "Rtosc.C12.saved_iff_differs_array",
     "Rtosc.C12.saved_value",
+    "Rtosc.C12.saved_value_array",
     "Rtosc.C12.untouched_saves_header_only",
     "Rtosc.C12.rejects_bad_header",
     "Rtosc.C12.rejects_other_app",
@@ -23,6 +24,7 @@ THEOREMS = [
     "Rtosc.C12.load_save_restores_partial",
     "Rtosc.C12.load_save_restores_scanned_partial",
     "Rtosc.C12.posinf_not_restored_counterexample",
+    "Rtosc.C12.hypotheses_cover_shared_dependants_and_preset_arrays",
 ]
 VERIF = os.path.dirname(os.path.dirname(os.path.dirname(os.path.abspath(__file__))))
 # the application pool is fixed (seeded by constants): regenerate the C++ when the generator changes
@@ -52,16 +54,20 @@ ASSUMPTIONS = [
     "own rEnabledBy is modelled as a one-port sub-tree and has a constant default (the walk does not skip such a port when "
     "it is off, but then it holds its default: no line either way)",
     "hypotheses of the theorems (App.WF, App.MetaCovers, MetaRanked - RtoscModel/Save/Spec.lean), beyond the obvious "
-    "(distinct addresses, acyclic dependency order, storable defaults): WF.anc_chain - two ports of which neither depends on "
-    "the other never share a dependant (the ancestors of every parameter form a chain); WF.array_ok - the elements of a "
-    "`name#N` array have constant defaults and nothing depends on them; MetaCovers - every dependence of the application is "
+    "(distinct addresses, storable defaults): the dependency order is a finite strict partial order (WF.anc_lt, anc_closed: "
+    "acyclic and transitively closed; two independent ports may share dependants - the former chain condition anc_chain is "
+    "no longer a hypothesis: independent writes are proved confluent, C13.independent_writes_confluent); WF.array_ok - the "
+    "elements of a `name#N` array share guards and ancestors and nothing depends on them (their defaults may be constant or "
+    "selected per element by a preset port; the model holds one default value per element - how the metadata spells them, "
+    "element by element, `6x7` or `1 ... 5`, is the scanner's matter and enters through the correspondence); MetaCovers - every dependence of the application is "
     "declared in the metadata scan_deps reads (rDefaultDepends / rDepends / rEnabledBy reach every ancestor, directly or "
-    "through another ancestor); MetaRanked - that metadata is acyclic and less than 64 levels deep. Bool versions of all of "
-    "them are evaluated by the compiled model for every application of the pool on every run (evidence: "
-    "input_distribution.theorem_hypotheses_per_app): they all hold for A0-A5 and for A11-A13 (the applications with "
-    "sub-trees enabled by a toggle of their own); A6-A10 (rDepends lists naming mutually independent ports, rDepends on "
-    "sub-trees, preset-dependent array defaults) violate anc_chain or array_ok: for those applications only the "
-    "correspondence and the oracle speak, not the theorems",
+    "through another ancestor); MetaRanked - that metadata is acyclic and less than 64 levels deep. Bool versions of these "
+    "hypotheses (all clauses of WF except kind_ok - option names distinct, float bounds ordered, char bounds in range - and "
+    "walk_tiles - the walk visits every instance once -, which the driver does not print) are evaluated by the compiled "
+    "model for every application of the pool on every run (evidence: input_distribution.theorem_hypotheses_per_app): they "
+    "hold for all fourteen applications A0-A13 (the driver still prints the retired clauses anc_chain and constant-array-"
+    "defaults `array_ok` for information: A6-A9 violate the former, A9/A10 the latter; the array clause in force is printed "
+    "as `array_shape`)",
     "a toggle that enables the sub-tree it lives in (rRecur(sub, rEnabledBy(sub/t)) / rSelf(T, rEnabledBy(t))) is modelled "
     "like a toggle of the parent table: it guards every other parameter of the sub-tree; it has a constant default and "
     "is not itself a preset port, an rDepends entry or the enabling port of anything else; switching it re-initialises the "
@@ -86,18 +92,24 @@ TRUSTED = ["hand-written abstract model RtoscModel/Save/{App,Deps,Load,Save}.lea
            "metadata of the descriptor is compared with the compiled port tables on every run (op `meta`)",
            "text stages (pretty printer / scanner, C10/C11), message encoding (C01), dispatch (C04), callbacks (C14), "
            "argument comparison (C16) enter only through the correspondence"]
-LEVEL_TEXT = ("Lean theorems over the abstract application model, for every application satisfying App.WF (incl. anc_chain and "
-              "array_ok, see assumptions), App.MetaCovers and MetaRanked, and every reachable state: load(save s) restores s and "
+LEVEL_TEXT = ("Lean theorems over the abstract application model, for every application satisfying App.WF (any acyclic, "
+              "transitively closed dependency order - independent ports may share dependants; array elements with constant or "
+              "preset-dependent defaults; see assumptions), App.MetaCovers and MetaRanked, and every reachable state: "
+              "load(save s) restores s and "
               "counts the lines, a line is present iff the value differs from its preset-dependent default, damaged files are "
-              "rejected; the hypotheses are evaluated (as Bools) for each generated application on every run and hold for nine of "
-              "the fourteen; all fourteen are compared, model against compiled implementation built from the real macros, and the "
-              "property is evaluated directly on the implementation's output")
+              "rejected; the hypotheses are evaluated (as Bools) for each generated application on every run and hold for all "
+              "fourteen (hypotheses_cover_shared_dependants_and_preset_arrays: a concrete application with a shared dependant "
+              "and a preset-dependent array satisfies them); all fourteen are compared, model against compiled implementation "
+              "built from the real macros, and the property is evaluated directly on the implementation's output")
 LEVEL_NOTE = ("partial: the theorems are about abstract lines (each text/encoding stage is tied by correspondence only; "
               "load_save_restores_scanned_partial / posinf_not_restored_counterexample state what the text stages of the "
               "unchanged library lose: +infinity, C12-K9); several theorems (load_counts_lines, rejects_*, saved_iff_differs) "
               "restate the model's own definitions - 'default' and 'wrong header' have no specification independent of the "
-              "model; there is no theorem about which elements an array line carries beyond load(save s) = s")
-
+              "model; the application's reaction to a change (re-applying the defaults of all dependants in dependency order, "
+              "App.setParam) is the modelled precondition, tied to the generated applications by correspondence; the Bool "
+              "versions of WF.kind_ok and WF.walk_tiles (App.kindOkB / App.walkTilesB in RtoscModel/Save/WfBool.lean, proved "
+              "sound in Proofs/SaveWfBool.lean) are not yet printed by the driver's `wf` mode, so the per-run evidence covers "
+              "the other clauses only (both were evaluated once for the fourteen applications of the pool: they hold)")
 
 # ------------------------------------------------------------------------------------
 # histories
@@ -360,7 +372,9 @@ def hypotheses_report(apps):
         return {"error": str(e)}
     rep = {}
     for a, l in zip(apps, out):
-        failing = [kv.split("=")[0] for kv in l.split()[1:] if kv.endswith("=0") and kv != "array_shape=0"]
+        # anc_chain and the constant-defaults form of array_ok are no hypotheses of the theorems any more (the driver still
+        # prints them); the array clause of App.WF is what the driver prints as array_shape
+        failing = [kv.split("=")[0] for kv in l.split()[1:] if kv.endswith("=0") and kv not in ("anc_chain=0", "array_ok=0")]
         rep[a.appid] = "all hold" if l.startswith("WF ") and not failing else "not: " + ",".join(failing) if l.startswith("WF ") else l
     return rep
 
